@@ -359,6 +359,43 @@ def get (m : Mgr) (v : View) (idx : List Nat) (extra : Pred) : Except Err Table 
     else .ok ⟨keep, cols.filterMap (fun c => (t.col? c).map
           (fun k => ⟨k.name, k.dtype, locCells t.rows k.cells keep⟩))⟩
 
+/-! ## Requests handed over as index OBJECTS
+
+A component does not always hand over an array of labels: `event.index`, `pop.index[::-1]`, `index[:k][::-1]`,
+`index[::2]` are `pd.RangeIndex` objects that carry `start`, `stop`, `step`. `PopulationView.get` looks them up
+by LABEL (`.loc[index]`), i.e. as the labels of Python's `range(start, stop, step)`. -/
+
+/-- the labels of `range(start, stop, step)` (`pd.RangeIndex(start, stop, step)`), in order: `start`,
+`start + step`, … strictly before `stop` (after `stop` for a negative step). Written without division: the
+offsets `i` from `start` that are multiples of `|step|`. (`step = 0` cannot be constructed.) -/
+def rangeLabels (start stop step : Int) : List Int :=
+  if 0 < step then
+    ((List.range (stop - start).toNat).filter (fun i => i % step.toNat == 0)).map (fun (i : Nat) => start + (i : Int))
+  else if step < 0 then
+    ((List.range (start - stop).toNat).filter (fun i => i % (-step).toNat == 0)).map (fun (i : Nat) => start - (i : Int))
+  else []
+
+/-- what is handed to `PopulationView.get` as `index` (or carried as the index of an update): an array of
+labels, or a range object -/
+inductive Req
+  | labels (l : List Nat)
+  | range (start stop step : Int)
+deriving DecidableEq, Repr
+
+/-- the labels a request stands for; simulant labels are never negative, so a range that goes below 0 asks
+for simulants that do not exist (`KeyError` from `.loc`) -/
+def Req.resolve : Req → Except Err (List Nat)
+  | .labels l => .ok l
+  | .range s e d =>
+    if (rangeLabels s e d).any (fun x => decide (x < 0)) then .error .unknownRow
+    else .ok ((rangeLabels s e d).map Int.toNat)
+
+/-- `PopulationView.get(index, query)` with the request as the object that was handed over -/
+def getReq (m : Mgr) (v : View) (req : Req) (extra : Pred) : Except Err Table :=
+  match req.resolve with
+  | .error e => .error e
+  | .ok idx => get m v idx extra
+
 /-! ## `PopulationView.update` -/
 
 /-- one entry of `column_updates` -/
